@@ -56,16 +56,23 @@ Record reply : Type := mkReply {
    condition valuations, all crash points and all callback programs. *)
 Definition env := cbid -> nat -> reply.
 
-Record item : Type := mkItem {
+(* V = the type of model states as seen by callbacks: a state id for flat machines, the
+   active configuration for hierarchical ones *)
+Record gitem (V : Type) : Type := mkGItem {
   it_slot : slot;
   it_cb : cbid;
   it_model : model;
-  it_state : state;             (* the model's state attribute when the callback ran *)
+  it_state : V;                 (* the model's state attribute when the callback ran *)
   it_arg : arg;                 (* what it was handed *)
   it_err : option exn;          (* event_data.error as visible through the event object *)
   it_ret : bool;
   it_acts : list action
 }.
+Arguments mkGItem {V}. Arguments it_slot {V}. Arguments it_cb {V}. Arguments it_model {V}.
+Arguments it_state {V}. Arguments it_arg {V}. Arguments it_err {V}. Arguments it_ret {V}.
+Arguments it_acts {V}.
+Notation item := (gitem state).
+Notation mkItem := (@mkGItem state).
 
 Inductive outcome : Type := ORet (b : bool) | OExn (e : exn).
 
@@ -74,8 +81,8 @@ Inductive outcome : Type := ORet (b : bool) | OExn (e : exn).
    Position of the next callback = start + number of items emitted so far; state
    survives an exception (no rollback), exactly as in Python.                         *)
 Section Monad.
-  Context {S : Type}.
-  Definition M (A : Type) := nat -> S -> (list item * S * (exn + A))%type.
+  Context {V S : Type}.
+  Definition M (A : Type) := nat -> S -> (list (gitem V) * S * (exn + A))%type.
 
   Definition ret {A} (a : A) : M A := fun _ s => ([], s, inr a).
   Definition raise {A} (e : exn) : M A := fun _ s => ([], s, inl e).
@@ -152,16 +159,16 @@ Record ctx : Type := mkCtx {
 Definition ctx_arg (c : ctx) : arg := if c_send c then EventObj (c_payload c) else Plain (c_payload c).
 
 Section Callbacks.
-  Context {S : Type}.
-  Variable seen : S -> state.      (* what a callback reads in the model's state attribute *)
+  Context {V S : Type}.
+  Variable seen : S -> V.          (* what a callback reads in the model's state attribute *)
   Variable ev : env.
   Variable c : ctx.
 
   (* Invoke one callback: Machine.callback.  [err] is event_data.error. *)
-  Definition call (sl : slot) (err : option exn) (cb : cbid) : M (S:=S) bool :=
+  Definition call (sl : slot) (err : option exn) (cb : cbid) : M (V:=V) (S:=S) bool :=
     fun p s =>
       let r := ev cb p in
-      let it := mkItem sl cb (c_model c) (seen s) (ctx_arg c)
+      let it := mkGItem sl cb (c_model c) (seen s) (ctx_arg c)
                        (if c_send c then err else None) (r_ret r) (r_acts r) in
       match r_raise r with
       | Some e => ([it], s, inl e)
@@ -169,7 +176,7 @@ Section Callbacks.
       end.
 
   (* Machine.callbacks: every callback of the list, in order. *)
-  Fixpoint run_cbs (sl : slot) (err : option exn) (cbs : list cbid) : M (S:=S) unit :=
+  Fixpoint run_cbs (sl : slot) (err : option exn) (cbs : list cbid) : M (V:=V) (S:=S) unit :=
     match cbs with
     | [] => ret tt
     | cb :: rest => call sl err cb ;;; run_cbs sl err rest
@@ -177,7 +184,7 @@ Section Callbacks.
 
   (* Transition._eval_conditions: conditions then unless-checks, in order, stop at the
      first whose value differs from its target. *)
-  Fixpoint eval_conds (conds : list (cbid * bool)) : M (S:=S) bool :=
+  Fixpoint eval_conds (conds : list (cbid * bool)) : M (V:=V) (S:=S) bool :=
     match conds with
     | [] => ret true
     | (cb, target) :: rest =>
